@@ -445,7 +445,14 @@ func OracleInputs(prop string, v *View) []Violation {
 			continue
 		}
 		ev := evs[0]
-		obs := Observe(prog, v.Facts.Input, v.Events, ev.Seq-1, v.Shutdown)
+		// A step that starts while the run is being torn down may find a source closed whose result the
+		// engine had not read yet, however long ago the plugin emitted it: its optional inputs may then be
+		// absent (what is present must still be the source's value).
+		sd := v.Shutdown
+		if sd > 0 && ev.Seq > sd {
+			sd = 1
+		}
+		obs := Observe(prog, v.Facts.Input, v.Events, ev.Seq-1, sd)
 		r := obs.Eval(ir.Obj(st.In...))
 		if r.St != ref.OK {
 			continue // a start without its prerequisites is C04's finding
@@ -802,19 +809,18 @@ func OraclePrompt(prop string, v *View) []Violation {
 	return nil
 }
 
-// runRoot is the role of the goroutine that runs the (sub-)workflow a goroutine belongs to: the prefix
-// of its name up to the innermost loop worker, or the client itself.
-func runRoot(role string) string {
-	root := role
-	if i := strings.Index(role, "/"); i >= 0 {
-		segs := strings.SplitN(role, "/", 4)
-		if len(segs) >= 3 {
-			root = strings.Join(segs[:3], "/") // env/client/<name>
-		}
+// runRoot is the name of the goroutine that runs the (sub-)workflow a goroutine belongs to: the prefix
+// of its name up to the innermost loop worker (with its instance number: every item has its own
+// sub-workflow run), or the client itself.
+func runRoot(name string) string {
+	root := name
+	segs := strings.SplitN(name, "/", 4)
+	if len(segs) >= 3 {
+		root = strings.Join(segs[:3], "/") // env/client/<name>
 	}
-	for _, loc := range roleTail.FindAllStringIndex(role, -1) {
-		if spawnFunc[role[loc[0]:loc[1]]] == "*runningStep.executeSubWorkflows" {
-			root = role[:loc[1]]
+	for _, loc := range spawnPart.FindAllStringIndex(name, -1) {
+		if spawnFunc[stripInstances(name[loc[0]:loc[1]])] == "*runningStep.executeSubWorkflows" {
+			root = name[:loc[1]]
 		}
 	}
 	return root
@@ -825,6 +831,7 @@ func stripInstances(name string) string {
 }
 
 var instanceNo = regexp.MustCompile(`#\d+`)
+var spawnPart = regexp.MustCompile(`[^/]+/[^/]+\.go:\d+(#\d+)?`)
 
 // stalledShape says where the step goroutines of a (sub-)workflow were held up by the scheduler when
 // that workflow's fallback detector gave up (identified by function, not by line, so it survives
@@ -839,15 +846,16 @@ func stalledShape(v *View) (string, bool) {
 	var sn *simrt.Snapshot
 	for i := range v.R.Snapshots {
 		x := &v.R.Snapshots[i]
-		top := !strings.Contains(runRoot(stripInstances(x.G)), "provider.go:")
-		if top == (v.C0.ErrClass == "no-more-steps") {
-			sn = x
+		top := !strings.Contains(runRoot(x.G), "provider.go:")
+		if top == (v.C0.ErrClass == "no-more-steps") && strings.HasPrefix(x.G, "env/client/"+v.C0.Name+"/") {
+			sn = x // the first give-up of this client's run is the one that ended it
+			break
 		}
 	}
 	if sn == nil {
 		return "", false
 	}
-	root := runRoot(stripInstances(sn.G))
+	root := runRoot(sn.G)
 	prefix := ""
 	if strings.Contains(root, "provider.go:") {
 		prefix = "; the detector of a sub-workflow gave up"
@@ -860,7 +868,7 @@ func stalledShape(v *View) (string, bool) {
 		i := strings.LastIndex(o, "@")
 		role, site := o[:i], strings.TrimPrefix(o[i+1:], "go:")
 		if runRoot(role) != root {
-			continue // another (sub-)workflow
+			continue // another (sub-)workflow, or another item's run of the same sub-workflow
 		}
 		fn := SiteFunc[site]
 		if role == root {
